@@ -403,8 +403,13 @@ class Check:
             'wall_s': round(self.elapsed(), 2),
             'violations': len(self.violations) + (1 if (not self.violations and self.broken) else 0),
         }
-        os.makedirs(os.path.join(VERIF, 'evidence'), exist_ok=True)
-        with open(os.path.join(VERIF, 'evidence', '%s.json' % self.prop), 'w') as fh:
+        # evidence/<id>.json describes runs against /repo itself; a run against another tree (STONE_REPO, the seeded
+        # changes) writes under evidence/other-tree/ (ignored by git)
+        evdir = os.path.join(VERIF, 'evidence') if os.path.realpath(REPO) == '/repo' else \
+            os.path.join(VERIF, 'evidence', 'other-tree')
+        ev['coverage']['repo_tree'] = REPO
+        os.makedirs(evdir, exist_ok=True)
+        with open(os.path.join(evdir, '%s.json' % self.prop), 'w') as fh:
             json.dump(ev, fh, indent=1, sort_keys=True, default=repr)
             fh.write('\n')
         for l in lines:
